@@ -58,10 +58,10 @@ class LiteIdentityKeyStore(IdentityKeyStore):
         self.dbConn.commit()
 
     def saveIdentity(self, recipientId, identityKey):
+        # delete and insert in ONE transaction (no commit in between): a crash must not
+        # leave the contact without its pinned identity
         q = "DELETE FROM identities WHERE recipient_id=?"
         self.dbConn.cursor().execute(q, (recipientId,))
-        self.dbConn.commit()
-
 
         q = "INSERT INTO identities (recipient_id, public_key) VALUES(?, ?)"
         c = self.dbConn.cursor()
